@@ -2422,7 +2422,11 @@ fn main() {
                 ss.push((gen_session(&mut r, &mut g, al, &mut tags), End::Crash(spec)));
                 // ids of the lost operations are handed out again: restart the id bookkeeping loosely
                 for _ in 0..1 + r.below(2) {
-                    ss.push((gen_session(&mut r, &mut g, al, &mut tags), End::Close));
+                    // after a crash, uncommitted CreateEdge records can come back beside edges that reuse
+                    // their ids (finding K5); the adjacency lists then hold an id twice and the order in which
+                    // delete_node cascades over them is not modelled: no delete_node in these sessions
+                    let sess: Vec<Op> = gen_session(&mut r, &mut g, al, &mut tags).into_iter().filter(|o| !matches!(o, Op::DeleteNode(_))).collect();
+                    ss.push((sess, End::Close));
                 }
                 cases_history("C06", &mut sc, &mut out, mode, &ss, tags, false);
             }
